@@ -70,6 +70,20 @@ class SimApp(BaseApplication):
         src = dict(w.cfgsrc)
         for k, v in src.items():
             self.cfg.set(k, v)
+        # settings given through the environment (GUNICORN_CMD_ARGS): only --user / --group are modelled; what counts is
+        # the environment of *this* simulated process (an upgraded master only sees what reexec() passed on)
+        args = (seams.OS.environ.get("GUNICORN_CMD_ARGS") or "").split()
+        for i_ in range(0, len(args) - 1, 2):
+            if args[i_] in ("--user", "--group"):
+                v_ = args[i_ + 1]
+                self.cfg.set(args[i_][2:], int(v_) if v_.isdigit() else v_)
+        intended = dict(w.env_identity or {})
+        for k_ in ("user", "group"):
+            if k_ in src:
+                intended[k_] = src[k_]
+        tcur = current_task()
+        if tcur is not None:
+            w.intended[tcur.proc.pid] = (intended.get("user"), intended.get("group"))
         self.cfg.set("logger_class", SimLogger)
         self.cfg.set("worker_class", w.worker_class)
         self.cfg.env_orig = dict(w.base_env)
@@ -108,6 +122,10 @@ class SimArbiter(Arbiter):
     def handle_usr2(self):
         self._ev("handle", "usr2")
         super().handle_usr2()
+
+    def handle_winch(self):
+        self._ev("handle", "winch")
+        super().handle_winch()
 
     def stop(self, graceful=True):
         self._world_stopping = True
@@ -253,6 +271,8 @@ class World:
         self.served = []             # (time, worker pid, age, marker)
         self.forks = []              # (time, parent pid, child pid, kind)
         self.addr = ("127.0.0.1", 8000)
+        self.env_identity = None     # {"user":..., "group":...} given through GUNICORN_CMD_ARGS instead of the config source
+        self.intended = {}           # master pid -> (user, group) the world intends for workers forked by that master
         self.cproc = None
         self.clients = []
         SimLogger.WORLD = self
@@ -261,14 +281,14 @@ class World:
         sim.on_fork = self.on_fork
         sim.programs[MASTER_PROG] = self.master_main
 
-    def add_client(self, name, script):
+    def add_client(self, name, script, addr=None):
         from worlds.worker import Client
         from simkit.kernel import Proc
         if getattr(self, "cproc", None) is None:
             self.cproc = Proc(9, 1, "clients")
             self.sim.procs[9] = self.cproc
             self.clients = []
-        c = Client(self, name, script)
+        c = Client(self, name, script, addr)
         self.clients.append(c)
         self.sim.new_task(self.cproc, c.run, name, False)
         return c
